@@ -76,6 +76,38 @@ Theorem C07_handle_catch_no_panic : forall (s : gsl) (running : bool) (depths : 
   gsl_ok s -> handle_catch s running depths underflow <> Panic.
 Proof. exact handle_catch_no_panic. Qed.
 
+(* x % y and x / y: with the zero test made per kind (the code as it is) no operand kind and no divisor
+   value reaches Go's integer-divide panic or a failed type assertion (operands normalised to one kind) *)
+Theorem C07_modulo_no_panic : forall (k : nkind) (v2 : Z), modulo_op true k k v2 <> Panic.
+Proof. exact modulo_op_no_panic. Qed.
+
+Theorem C07_divide_no_panic : forall (k : nkind) (v2 : Z) (divzero : bool), divide_op k k v2 divzero <> Panic.
+Proof. exact divide_op_no_panic. Qed.
+
+(* why the test cannot be hoisted: "v2 == 0" on the interface value is true for int(0) only *)
+Theorem C07_modulo_hoisted_refuted : exists k v2, modulo_op false k k v2 = Panic.
+Proof. exact modulo_hoisted_refuted. Qed.
+
+(* array slicing: every (first, last), byte arrays and others *)
+Theorem C07_get_slice_no_panic : forall (a : earray) (first last : Z), get_slice a first last <> Panic.
+Proof. exact get_slice_no_panic. Qed.
+
+Theorem C07_get_slice_as_array_no_panic : forall (a : earray) (first last : Z), get_slice_as_array false a first last <> Panic.
+Proof. exact get_slice_as_array_no_panic. Qed.
+
+(* why the byte branch needs its own "last < first": a merged bounds test that leaves it to GetSlice panics on b[6:2] *)
+Theorem C07_get_slice_as_array_merged_refuted : exists a first last, get_slice_as_array true a first last = Panic.
+Proof. exact get_slice_as_array_merged_refuted. Qed.
+
+Example C07_values_nonvacuous :
+  modulo_op true KInt32 KInt32 0 = Ok ADivZero /\ modulo_op true KByte KByte 3 = Ok AValue /\
+  modulo_op true KFloat64 KFloat64 0 = Ok ATypeErr /\ divide_op KInt64 KInt64 0 false = Ok ADivZero /\
+  divide_op KFloat64 KFloat64 0 false = Ok AValue /\
+  get_slice_as_array false {| aisbyte := true; abytes := [1;2;3;4;5;6;7]; adata := [] |} 2 6 = Ok (Some [3;4;5;6]) /\
+  get_slice_as_array false {| aisbyte := true; abytes := [1;2;3;4;5;6;7]; adata := [] |} 6 2 = Ok None /\
+  get_slice_as_array false {| aisbyte := false; abytes := []; adata := [1;2;3] |} 1 3 = Ok (Some [2;3]).
+Proof. vm_compute. repeat split; reflexivity. Qed.
+
 (* ---- non-vacuity: each kernel does real work on a concrete non-trivial input *)
 Definition T (c : N) (s : str) (p : Z) : tok := {| tclass := c; tspell := s; tline := 1; tpos := p |}.
 Definition demo_table : list crush :=
